@@ -75,6 +75,7 @@ def gen_decls(rng, nrep=None, nctl=None, bools=True):
 
 class Env:
     def __init__(self, decls):
+        self.declared = set()   # every declared name, usable by the generator or not
         self.num_rc = []   # assignable numeric report/control (full names)
         self.bool_rc = []
         self.reports = []
@@ -87,6 +88,7 @@ class Env:
         self.extra = 0
 
     def _add(self, name, init, is_rep):
+        self.declared.add(name)
         if init[0] == "raw":
             return  # untyped: declared but not usable by the generator
         if is_rep:
@@ -174,7 +176,7 @@ def _gen_stmt(rng, env, max_tmps=8, allow_new_local=True):
         if env.bool_rc and rng.random() < 0.6:
             return ("op", "bind", ("var", rng.choice(env.bool_rc)), c)
         if allow_new_local and len(env.locals_num) + len(env.locals_bool) + env.extra < 6:
-            n = fresh_names(rng, 1, set(BUILTINS) | set(env.num_rc) | set(env.bool_rc) | set(env.locals_num) | set(env.locals_bool))[0]
+            n = fresh_names(rng, 1, set(BUILTINS) | env.declared | set(env.num_rc) | set(env.bool_rc) | set(env.locals_num) | set(env.locals_bool))[0]
             env.locals_bool.append(n)
             return ("op", "bind", ("var", n), c)
         if env.locals_bool:
@@ -204,7 +206,7 @@ def _gen_stmt(rng, env, max_tmps=8, allow_new_local=True):
     elif q < 0.8 and env.locals_num:
         tgt = rng.choice(env.locals_num)
     elif allow_new_local and len(env.locals_num) + len(env.locals_bool) + env.extra < 6:
-        tgt = fresh_names(rng, 1, set(BUILTINS) | set(env.num_rc) | set(env.bool_rc) | set(env.locals_num) | set(env.locals_bool))[0]
+        tgt = fresh_names(rng, 1, set(BUILTINS) | env.declared | set(env.num_rc) | set(env.bool_rc) | set(env.locals_num) | set(env.locals_bool))[0]
         env.locals_num.append(tgt)
     elif env.num_rc:
         tgt = rng.choice(env.num_rc)
@@ -223,7 +225,7 @@ def gen_program(rng, nrep=None, nctl=None, nev=None, bools=True, ensure_report=0
         if rng.random() < 0.08 and len(env.locals_num) + len(env.locals_bool) + env.extra <= 4:
             # a read of a name that was never assigned (an untyped local, reads 0), copied into a fresh local which
             # is then given a number (regression shape of F11: the second bind used to write the *other* register)
-            used = set(BUILTINS) | set(env.num_rc) | set(env.bool_rc) | set(env.locals_num) | set(env.locals_bool)
+            used = set(BUILTINS) | env.declared | set(env.num_rc) | set(env.bool_rc) | set(env.locals_num) | set(env.locals_bool)
             t, u = fresh_names(rng, 2, used)
             i = rng.randrange(len(body) + 1)
             body.insert(i, ("op", "bind", ("var", t), ("var", u)))
